@@ -421,7 +421,7 @@ def _task(item):
     for o in p.occs:
         if o.name in ('v', 'w'):
             continue
-        rec = dict(id=o.oid, name=o.name)
+        rec = dict(id=o.oid, name=o.name, pos=(o.line, o.col))
         r = refs_from(o)
         if isinstance(r, dict):
             rec['exc'] = r['exc']
@@ -889,7 +889,7 @@ def run_mm(ctx):
     ctx.rng.shuffle(directed)
     for d in directed[:ctx.n(int(os.environ.get('C05_MMD', 30)), len(directed))]:
         projs.append(gen_project(ctx.rng, d))
-    for _ in range(ctx.n(int(os.environ.get('C05_MM', 50)), 1500)):
+    for _ in range(ctx.n(int(os.environ.get('C05_MM', 50)), 600)):
         projs.append(gen_project(ctx.rng))
     import time
     t0 = time.time()
@@ -1035,7 +1035,7 @@ def run(ctx):
         ctx.rng.shuffle(fam)
         fam = fam[:int(os.environ.get("C05_F", 60))]
     progs += [('rb', p) for p in fam]
-    for _ in range(ctx.n(int(os.environ.get("C05_R", 70)), 3000)):
+    for _ in range(ctx.n(int(os.environ.get("C05_R", 70)), 1500)):
         progs.append(('rb', rand_body2(ctx.rng, ctx.rng.randint(1, 3), ctx.rng.randint(2, 5), ['a', 'b'], counter)))
     results = common.pmap(_task, progs, chunksize=8)
     defs, rcases, rmeta, tcases, tmeta = [DEFS], [], [], [], []
@@ -1058,7 +1058,7 @@ def run(ctx):
         defs.append('Definition %s_down : list N := %s.' % (name, g_list(r['down'], g_N, 'N')))
         for rec in r['occs']:
             stats['occurrences'] += 1
-            where = dict(source=r['src'], occurrence=rec['id'], name=rec['name'])
+            where = dict(source=r['src'], occurrence=rec['id'], name=rec['name'], position=list(rec['pos']))
             if 'exc' in rec:
                 ctx.deviation(dict(stream='refs', exc=rec['exc']['exc'], site=rec['exc']['site']), dict(error=rec['exc'], **where),
                               'get_references raised')
@@ -1116,18 +1116,18 @@ def run(ctx):
             n_obl += 1
             if n_obl <= 6:
                 ctx.violation('obligation', dict(what='correspondence refs_j (transcription of find_references over jedi_goto): model and implementation differ',
-                                                 input=dict(source=m['source'], occurrence=m['occurrence'], reported=m['refs'], program=m['gprog']),
+                                                 input=dict(source=m['source'], occurrence=m['occurrence'], position=m['position'], reported=m['refs'], program=m['gprog']),
                                                  model=predicted[i]), nofail=True)
         if i in unbound:
             continue   # a name that is bound nowhere has no definition to collect references for
         if i in failset:
             ctx.deviation(dict(stream='refs', cls='refs-differ-from-python-variable', reason=reason(i)),
-                          dict(source=m['source'], occurrence=m['occurrence'], name=m['name'], reported=m['refs'],
+                          dict(source=m['source'], occurrence=m['occurrence'], name=m['name'], position=m['position'], reported=m['refs'],
                                transcription_predicts=predicted.get(i, m['refs'])),
                           'get_references from occurrence #%d reports %r, which is not the set of occurrences of that variable' % (m['occurrence'], m['refs']))
         if m['partition']:
             ctx.deviation(dict(stream='partition', cls='not-a-partition', reason=reason(i, [byocc.get((m['prog'], m['partition']['member']))])),
-                          dict(source=m['source'], occurrence=m['occurrence'], reported=m['refs'], **m['partition']),
+                          dict(source=m['source'], occurrence=m['occurrence'], position=m['position'], reported=m['refs'], **m['partition']),
                           'get_references from #%d gives %r but from its member #%d gives %r' % (
                               m['occurrence'], m['refs'], m['partition']['member'], m['partition']['other']))
     stats['predicted_exactly'] = len(rmeta) - len(unpredicted)
@@ -1142,22 +1142,22 @@ def run(ctx):
         refs_ok = m['idx'] not in failset
         if k in tfs:
             ctx.deviation(dict(stream='text', cls='rename-not-exactly-the-references'),
-                          dict(source=m['source'], occurrence=m['occurrence'], new_code=m['new']),
+                          dict(source=m['source'], occurrence=m['occurrence'], position=m['position'], new_code=m['new']),
                           'rename changed something other than exactly the value bytes of the reported references')
         if m['renames']:
             ctx.deviation(dict(stream='text', cls='unexpected-file-rename'), dict(source=m['source'], renames=m['renames']),
                           'rename of a variable announces file renames')
         if m['back_exc']:
             ctx.deviation(dict(stream='text', exc=m['back_exc']['exc'], site=m['back_exc']['site'], reason=reason(m['idx'])),
-                          dict(source=m['source'], occurrence=m['occurrence'], error=m['back_exc']), 'renaming back raised')
+                          dict(source=m['source'], occurrence=m['occurrence'], position=m['position'], error=m['back_exc']), 'renaming back raised')
         elif m['back'] is not None and m['back'] != m['source']:
             ctx.deviation(dict(stream='text', cls='roundtrip', reason=reason(m['idx']), refs_are_variable=refs_ok),
-                          dict(source=m['source'], occurrence=m['occurrence'], new_code=m['new'], back=m['back']),
+                          dict(source=m['source'], occurrence=m['occurrence'], position=m['position'], new_code=m['new'], back=m['back']),
                           'renaming to a fresh name and back does not restore the original text')
         if not m['trace_equal']:
             stats['trace_changed'] += 1
             ctx.deviation(dict(stream='run', cls='behaviour-changed', reason=reason(m['idx']), refs_are_variable=refs_ok),
-                          dict(source=m['source'], occurrence=m['occurrence'], new_code=m['new']),
+                          dict(source=m['source'], occurrence=m['occurrence'], position=m['position'], new_code=m['new']),
                           'the renamed program does not behave like the original')
     ctx.stat('programs', stats)
     for m in rmeta[:2]:
@@ -1167,6 +1167,33 @@ def run(ctx):
 
 
 def replay(ctx, path):
+    """re-run the recorded case against the implementation and print what it answers now"""
     rec = json.load(open(path))
-    print(json.dumps(rec, indent=1)[:3000])
+    print(json.dumps({k: v for k, v in rec.items() if k not in ('files', 'source', 'input')}, indent=1)[:3000])
+    jedi = common.setup_jedi(os.path.join(ctx.tmp, 'cache'))
+    case = rec.get('input') if isinstance(rec.get('input'), dict) else rec
+    if 'files' in case:
+        d = os.path.join(ctx.tmp, 'replay')
+        _mm_write(d, case['files'])
+        for fn, code in sorted(case['files'].items()):
+            print('--- %s\n%s' % (fn, code))
+        tok = case.get('token')
+        if tok:
+            p = os.path.join(d, tok[0])
+            s = jedi.Script(open(p).read(), path=p, project=jedi.Project(d))
+            now = sorted((os.path.relpath(str(x.module_path), d), x.line, x.column) for x in s.get_references(tok[1], tok[2]))
+            print('get_references from %r now:' % (tok,), now)
+            print('recorded :', case.get('reported') or case.get('references'))
+            print('expected :', case.get('expected'))
+    elif 'source' in case:
+        print(case['source'])
+        pos = case.get('position')
+        if pos:
+            s = jedi.Script(case['source'])
+            print('get_references from %r now (line, column):' % (pos,), sorted((x.line, x.column) for x in s.get_references(*pos)))
+            print('recorded occurrence ids :', case.get('reported'), ' transcription predicts:', case.get('transcription_predicts', rec.get('model')))
+            try:
+                print('rename to %s:\n%s' % (NEW, s.rename(*pos, new_name=NEW).get_changed_files()[None].get_new_code()))
+            except Exception as e:
+                print('rename raised %r' % (e,))
     return 0
